@@ -314,6 +314,8 @@ func (m *mux) reader() {
 				err = io.EOF
 			case errors.Is(err, net.ErrClosed):
 				err = io.EOF
+			case errors.Is(err, io.ErrClosedPipe):
+				err = io.EOF
 			default:
 				err = fmt.Errorf("failed to read header from trunk: %w", err)
 			}
@@ -335,6 +337,8 @@ func (m *mux) reader() {
 			case errors.Is(err, ttrpc.ErrServerClosed):
 				err = io.EOF
 			case errors.Is(err, net.ErrClosed):
+				err = io.EOF
+			case errors.Is(err, io.ErrClosedPipe):
 				err = io.EOF
 			default:
 				err = fmt.Errorf("failed to read payload from trunk: %w", err)
